@@ -21,27 +21,41 @@ theorem trim_hasNeg (shift : Int) (hs : 0 ≤ shift) (cl : List (Int × Int)) (h
     · exact ⟨(p.1, p.2 - shift), by simp [trimLastEnd], by simp only; omega⟩
     · exact ⟨p, by simp [trimLastEnd, hp], hneg⟩
 
-theorem cleanStep_hasNeg (st st' : CleanSt) (rel : Int × Int) (fr : CDSFrame)
-    (h : cleanStep st rel fr = .ok st') (hn : HasNeg st.cleanedRev) : HasNeg st'.cleanedRev := by
+/-- the cleaned list after one iteration: the (possibly trimmed) old list, possibly with one new entry on top -/
+theorem cleanStep_cases (st st' : CleanSt) (rel : Int × Int) (fr : CDSFrame)
+    (h : cleanStep st rel fr = .ok st') :
+    st'.cleanedRev = (if st.nextFrame ≠ fr ∧ cleanedSum st.cleanedRev % 3 > 0 then
+        trimLastEnd (cleanedSum st.cleanedRev % 3) st.cleanedRev else st.cleanedRev) ∨
+    ∃ s, st'.cleanedRev = (s, rel.2) :: (if st.nextFrame ≠ fr ∧ cleanedSum st.cleanedRev % 3 > 0 then
+        trimLastEnd (cleanedSum st.cleanedRev % 3) st.cleanedRev else st.cleanedRev) := by
   unfold cleanStep at h
   simp only at h
-  generalize hcl : (if st.nextFrame ≠ fr ∧ cleanedSum st.cleanedRev % 3 > 0 then
-      trimLastEnd (cleanedSum st.cleanedRev % 3) st.cleanedRev else st.cleanedRev) = cl at h
-  have hinv : HasNeg cl := by
-    rw [← hcl]; split
-    · exact trim_hasNeg _ (by omega) _ hn
-    · exact hn
+  generalize (if st.nextFrame ≠ fr ∧ cleanedSum st.cleanedRev % 3 > 0 then
+      trimLastEnd (cleanedSum st.cleanedRev % 3) st.cleanedRev else st.cleanedRev) = cl at h ⊢
+  generalize (if st.nextFrame ≠ fr then rel.1 + fr.value else rel.1) = relStart at h
+  generalize (if st.nextFrame ≠ fr then CDSFrame.ZERO else st.nextFrame) = nf at h
   split at h
-  · simp only [pure, Except.pure, Except.ok.injEq] at h; subst h; exact hinv
-  · cases hsf : frameShift (if st.nextFrame ≠ fr then CDSFrame.ZERO else st.nextFrame)
-        (rel.2 - (if st.nextFrame ≠ fr then rel.1 + fr.value else rel.1)) with
+  · simp only [pure, Except.pure, Except.ok.injEq] at h; subst h; exact Or.inl rfl
+  · cases hsf : frameShift nf (rel.2 - relStart) with
     | error e => rw [hsf] at h; simp [bind, Except.bind] at h
     | ok g =>
       rw [hsf] at h
       simp only [bind, Except.bind, pure, Except.pure, Except.ok.injEq] at h
       subst h
-      obtain ⟨p, hp, hneg⟩ := hinv
-      exact ⟨p, by simp [hp], hneg⟩
+      exact Or.inr ⟨relStart, rfl⟩
+
+theorem cleanStep_hasNeg (st st' : CleanSt) (rel : Int × Int) (fr : CDSFrame)
+    (h : cleanStep st rel fr = .ok st') (hn : HasNeg st.cleanedRev) : HasNeg st'.cleanedRev := by
+  have hinv : HasNeg (if st.nextFrame ≠ fr ∧ cleanedSum st.cleanedRev % 3 > 0 then
+      trimLastEnd (cleanedSum st.cleanedRev % 3) st.cleanedRev else st.cleanedRev) := by
+    split
+    · exact trim_hasNeg _ (by omega) _ hn
+    · exact hn
+  rcases cleanStep_cases st st' rel fr h with h1 | ⟨s, h1⟩
+  · rw [h1]; exact hinv
+  · rw [h1]
+    obtain ⟨p, hp, hneg⟩ := hinv
+    exact ⟨p, by simp [hp], hneg⟩
 
 theorem cleanLoop_hasNeg : ∀ (inp : List ((Int × Int) × CDSFrame)) (st st' : CleanSt),
     cleanLoop st inp = .ok st' → HasNeg st.cleanedRev → HasNeg st'.cleanedRev
@@ -90,21 +104,11 @@ theorem cleanStep_deep (st : CleanSt) (segs : List (List Nat)) (h : Corr st segs
         rw [if_pos ⟨hresync, hpos⟩, hc]
         refine ⟨(p.1, p.2 - cleanedSum (p :: cl) % 3), by simp [trimLastEnd], ?_⟩
         rw [← hc, hshift]; simp only; omega
-      unfold cleanStep at hs
-      simp only at hs
-      generalize (if st.nextFrame ≠ fr ∧ cleanedSum st.cleanedRev % 3 > 0 then
-          trimLastEnd (cleanedSum st.cleanedRev % 3) st.cleanedRev else st.cleanedRev) = cl' at hs hneg
-      split at hs
-      · simp only [pure, Except.pure, Except.ok.injEq] at hs; subst hs; exact hneg
-      · cases hsf : frameShift (if st.nextFrame ≠ fr then CDSFrame.ZERO else st.nextFrame)
-            (((off + n : Nat) : Int) - (if st.nextFrame ≠ fr then (off : Int) + fr.value else (off : Int))) with
-        | error e => rw [hsf] at hs; simp [bind, Except.bind] at hs
-        | ok g =>
-          rw [hsf] at hs
-          simp only [bind, Except.bind, pure, Except.pure, Except.ok.injEq] at hs
-          subst hs
-          obtain ⟨q, hq, hqn⟩ := hneg
-          exact ⟨q, by simp [hq], hqn⟩
+      rcases cleanStep_cases st st' _ fr hs with h1 | ⟨s, h1⟩
+      · rw [h1]; exact hneg
+      · rw [h1]
+        obtain ⟨q, hq, hqn⟩ := hneg
+        exact ⟨q, by simp [hq], hqn⟩
 
 /-- if the reference walk needs a deep trim, every successful run of the loop ends with a negative entry -/
 theorem cleanLoop_deep : ∀ (ex : List (Nat × CDSFrame)) (off : Nat) (st : CleanSt) (segs : List (List Nat)),
@@ -123,7 +127,8 @@ theorem cleanLoop_deep : ∀ (ex : List (Nat × CDSFrame)) (off : Nat) (st : Cle
       simp only at hrun
       by_cases hsame : fr.value.toNat = segsLen segs % 3
       · simp only [hsame, if_true] at hw
-        obtain ⟨st1', h1, hc1⟩ := cleanStep_corr st segs h off n fr hfr0 _ (by simp [hsame])
+        obtain ⟨st1', h1, hc1⟩ := cleanStep_corr st segs h off n fr hfr0
+          (pushSeg (List.range' off n) segs) (by rw [if_pos hsame])
         rw [hs] at h1; simp only [Except.ok.injEq] at h1; subst h1
         exact cleanLoop_deep rest (off + n) st1 _ hc1 hrest hw st' hrun
       · simp only [hsame, if_false] at hw
@@ -132,7 +137,8 @@ theorem cleanLoop_deep : ∀ (ex : List (Nat × CDSFrame)) (off : Nat) (st : Cle
         | some s' =>
           rw [ht] at hw
           simp only at hw
-          obtain ⟨st1', h1, hc1⟩ := cleanStep_corr st segs h off n fr hfr0 _ (by simp [hsame, ht])
+          obtain ⟨st1', h1, hc1⟩ := cleanStep_corr st segs h off n fr hfr0
+            (pushSeg ((List.range' off n).drop fr.value.toNat) s') (by rw [if_neg hsame, ht]; rfl)
           rw [hs] at h1; simp only [Except.ok.injEq] at h1; subst h1
           exact cleanLoop_deep rest (off + n) st1 _ hc1 hrest hw st' hrun
 
